@@ -656,3 +656,35 @@ func init() {
 		MinReach: []string{"end"}, TVVectors: 2,
 	})
 }
+
+func init() {
+	register(&Property{
+		ID: "C14", Dirs: []string{"root"},
+		Jobs: func(tier string) []Job {
+			var jobs []Job
+			sl := 2
+			if tier == "thorough" {
+				sl = 3
+			}
+			jobs = append(jobs, Job{Harness: "VX_C14_tojson", Params: P("shape", "name", "namelen", "1", "n", "1", "strlen", "0"), MaxPaths: 300000})
+			jobs = append(jobs, Job{Harness: "VX_C14_tojson", Params: P("shape", "name", "namelen", "2", "n", "1", "strlen", "0"), MaxPaths: 300000})
+			if tier == "thorough" {
+				jobs = append(jobs, Job{Harness: "VX_C14_tojson", Params: P("shape", "name", "namelen", "3", "n", "1", "strlen", "0"), MaxPaths: 300000})
+			}
+			jobs = append(jobs, Job{Harness: "VX_C14_tojson", Params: P("shape", "string", "namelen", "0", "n", "1", "strlen", itoa(sl)), MaxPaths: 300000})
+			jobs = append(jobs, Job{Harness: "VX_C14_tojson", Params: P("shape", "string", "namelen", "0", "n", "2", "strlen", "1"), MaxPaths: 300000})
+			jobs = append(jobs, Job{Harness: "VX_C14_tojson", Params: P("shape", "mixed", "namelen", "0", "n", "2", "strlen", "1"), MaxPaths: 300000})
+			jobs = append(jobs, Job{Harness: "VX_C14_tojson", Params: P("shape", "empty", "namelen", "0", "n", "0", "strlen", "1")})
+			return jobs
+		},
+		Bounds: func(tier string) string {
+			if tier == "thorough" {
+				return "ToJSON on derived frames: column names of 1-3 symbolic bytes over {a, quote, backslash, 0x01, 0x7f, 0xC3, 0x80}; string cells of 0..3 bytes over {a, quote, backslash, 0x00, 0x1f, LF, 0x7f, 0x80, 0xC2, 0xE2, 0xA8, 0xA9} and null; mixed frames (int,bool,string,enum,float with NaN) of 2 rows; 0 rows"
+			}
+			return "ToJSON on derived frames: column names of 1-2 symbolic bytes over {a, quote, backslash, 0x01, 0x7f, 0xC3, 0x80}; string cells of 0..2 bytes over {a, quote, backslash, 0x00, 0x1f, LF, 0x7f, 0x80, 0xC2, 0xE2, 0xA8, 0xA9} and null; mixed frames (int,bool,string,enum,float with NaN) of 2 rows; 0 rows"
+		},
+		Assume:   []string{"the output is read by a reference reader for the JSON subset written in the harness from RFC 8259", "number tokens of symbolic numbers are the engine's injective text model (DESIGN 3.4); the digit code is C16's", "ReadJSON: encoding/json's reflection-driven decoder cannot be executed by the engine; the ReadJSON half of the property is NOT decided (stated in level_note)"},
+		Outside:  []string{"ReadJSON (encoding/json decoder)", "strings longer than 3 bytes", "U+2028/U+2029 (3-byte sequences over the alphabet are reachable only in the thorough tier)"},
+		MinReach: []string{"end"}, TVVectors: 2,
+	})
+}
